@@ -7,7 +7,12 @@
 // them in the order the schedule dictates (seeded random / exhaustive); the squashing closures are the real
 // ones (real files are merged); tier2 jobs are played by a fake worker that leaves the files a real job leaves.
 //
-// Case line:  RUN g=<generator cfg> w=<workers> k= st= bs= we= re= start= xi= idx= fix=4 files=<seeds>  (fix=4: the code as it is, with the stage-index fix of commit 38ce9883) sched=<choices> v=<0|1>
+// Case line:  RUN g=<generator cfg> w=<workers> k= st= bs= we= re= start= xi= idx= fix=7 files=<seeds> sched=<choices> v=<0|1>
+//
+//	(fix= tells the model which code it is compared with: 7 = the repository at HEAD, i.e. with the three
+//	scheduler fixes 38ce9883 (stage index, bit 4), d60dce44 (dependenciesCompleted, bit 1) and 9da4cc23
+//	(markShadowedUnits, bit 2); a replayed line's fix= is replaced by the value of the code under test)
+//
 // Answer:     steps= end= h=<FNV-1a of every step's description+state> jobs= merges= last=<final state>
 package main
 
@@ -28,6 +33,16 @@ import (
 
 var out *common.Out
 
+// fixFlag is the `fix=` value written into the case lines: which of the three scheduler fixes the code under test
+// contains (7 = the repository at HEAD; 4 = before d60dce44/9da4cc23, 0 = before 38ce9883: `-extra fix=N` when the
+// harness is built against an older checkout)
+var fixFlag = "7"
+
+var fixRe = regexp.MustCompile(` fix=\d+ `)
+
+// withFix replaces the fix= token of a stored case line by the value of the code under test
+func withFix(line string) string { return fixRe.ReplaceAllString(line, " fix="+fixFlag+" ") }
+
 // report records an oracle failure; only the first few witnesses of a class are kept (the failure list of
 // common.Out is bounded), every occurrence is counted.
 var classCount = map[string]int{}
@@ -40,6 +55,7 @@ func report(class, desc, caseLine string) {
 		out.Count("oracle-fail:" + class)
 	}
 }
+
 var fsRoot string
 var fsN int
 
@@ -409,8 +425,8 @@ func (o *runOracle) finish() {
 
 func genConfig(r *common.Rng, maxStages, maxSegs int) genCfg {
 	k := uint64(10)
-	n := r.Range(1, maxStages)   // stages including the mapper stage
-	segs := r.Range(1, maxSegs)  // segments of the global range
+	n := r.Range(1, maxStages)    // stages including the mapper stage
+	segs := r.Range(1, maxSegs)   // segments of the global range
 	base := uint64(r.Intn(3)) * k // first segment of the whole range
 	if r.Chance(1, 3) {
 		base += uint64(r.Range(1, 9)) // unaligned lowest initial block
@@ -611,7 +627,7 @@ func randomRun(r *common.Rng, g genCfg, W int, seeds []fileSeed, bound int) {
 		out.Count("cfg:no-parallel")
 		return
 	}
-	prefix := "RUN " + cfg + " fix=4 files=" + seedsString(seeds)
+	prefix := "RUN " + cfg + " fix=" + fixFlag + " files=" + seedsString(seeds)
 	w := newWorld(g, W, seeds, nextDir())
 	var cs []choice
 	// ramp-up: time passes after a random number of scheduling attempts
@@ -926,7 +942,7 @@ func exhaustive(g genCfg, W int, seeds []fileSeed, budget int) {
 		out.Count("cfg:no-parallel")
 		return
 	}
-	e := &explorer{g: g, W: W, seeds: seeds, prefix: "RUN " + cfg + " fix=4 files=" + seedsString(seeds),
+	e := &explorer{g: g, W: W, seeds: seeds, prefix: "RUN " + cfg + " fix=" + fixFlag + " files=" + seedsString(seeds),
 		visited: map[string]int{}, classes: map[string]bool{}, budget: budget}
 	r := e.newRunner(nil)
 	var ans string
@@ -967,8 +983,26 @@ func exhaustive(g genCfg, W int, seeds []fileSeed, budget int) {
 
 // ---------------------------------------------------------------- main
 
-var corpusRuns = []string{
-	"RUN g=p:10:0/0/0:0:6:30:30 w=2 k=10 st=S0;S0;S0;M0 bs=0-30 we=0-30 re=6-30 start=6 xi=0 idx=0 fix=4 files=- sched=0,0,0,0,0,0,0,0,0,2,2,1,2,2,2,2,5,6,6,0,6,6,6,0e,6e,7e,0e,6e,6e,6e,1e,5e,5e,5e,1e,4e,5e,5e,1e,2e,3e,3e,3e,3e,2e,2e,2e,3e,4e,2e,3e,3e,3e,3e,4e,2e,3e,3e,3e,3e,4e,0e,3e,3e,3e,0e,2e,2e,2e,0e,2e,2e,2e,2e,0e,1e,1e,1e,1e,2e,1e,1e,1e,1e,1e,0e,1e,1e,1e,0e,0e,0e,0e v=0",
+// witnesses of the defects F15, F19, F20 (found on the code before d60dce44/9da4cc23, by the harness or by the
+// model's explorer): replayed on the code under test as regression cases — none of the oracle classes may fire.
+var corpusRuns = []struct {
+	g            string
+	w            int
+	files, sched string
+}{
+	// F19 three store stages + mapper on an empty cache: deadlock
+	{"p:10:0/0/0:0:6:30:30", 2, "-", "0,0,0,0,0,0,0,0,0,2,2,1,2,2,2,2,5,6,6,0,6,6,6,0e,6e,7e,0e,6e,6e,6e,1e,5e,5e,5e,1e,4e,5e,5e,1e,2e,3e,3e,3e,3e,2e,2e,2e,3e,4e,2e,3e,3e,3e,3e,4e,2e,3e,3e,3e,3e,4e,0e,3e,3e,3e,0e,2e,2e,2e,0e,2e,2e,2e,2e,0e,1e,1e,1e,1e,2e,1e,1e,1e,1e,1e,0e,1e,1e,1e,0e,0e,0e,0e"},
+	// F15 job of a stage's first segment before the lower stage is complete
+	{"p:10:5/25:25:25:40:40", 1, "-", "0,2,0,3,0,3,0,0,2,2,1,2,3,4,3,4,4,1e,1e,3e,3e,3e,1e,2e,3e"},
+	{"p:10:5/25:25:25:70:70", 1, "-", "0,1,2,2,2,3,2,6,0,1,2,2"},
+	// F20 only the direct parent's previous segment was checked
+	{"d:10:0/0:0:15:20:20", 2, "F0.0:0-20", "0,1,0,2,0,0,1,1,1e"},
+	// F19 leftover partial: segment merged twice
+	{"p:10:0:0:0:20:20", 1, "P0.0:0-10", "0,2,0,2,0,2,3,3,2,3,3,3,5,3,5,5,0,5,5,6,5,0,5,5,5,0e,0e"},
+	// F19 panic: invalid transition Shadowed -> PartialPresent
+	{"d:10:0/0/0:0:15:20:20", 2, "P2.0:10-20", "0,1,0,3,0,0,0,1,1,0,1,1,1,4,5,5,0e,1e,4e,4e,4e,1e,3e,3e,3e,1e,2e,3e,1e,1e,1e,1e,2e,1e,2e,0e,1e,1e,0e"},
+	// F19 development mode, leftover partial: deadlock
+	{"d:10:20/20:20:38:50:50", 1, "P1.0:20-30", "0,1,0,2,0,2,2,0,2,2,3,2,0,2,2,2,2,3,3,0e,0e,0e,1e,1e,1e,0e"},
 }
 
 func main() {
@@ -986,11 +1020,37 @@ func main() {
 
 	if lines := o.ReplayLines(); lines != nil {
 		for _, l := range lines {
+			l = withFix(l)
+			if toks := strings.Fields(l); len(toks) > 0 && toks[0] == "EXPLORE" {
+				W, _ := strconv.Atoi(kvOf(toks, "w"))
+				b, _ := strconv.Atoi(kvOf(toks, "budget"))
+				exhaustive(parseGen(kvOf(toks, "g")), W, parseSeeds(kvOf(toks, "files")), b)
+				continue
+			}
 			emit(l, true)
 		}
 		return
 	}
 	rng := common.NewRng(o.Seed)
+	nRandom, nExh, budget := 500, 40, 2500
+	if o.Thorough() {
+		nRandom, nExh, budget = 6000, 400, 120000
+	}
+	for _, kv := range strings.Split(o.Extra, ",") { // -extra random=N,exh=M,budget=B (experiments)
+		if p := strings.SplitN(kv, "=", 2); len(p) == 2 {
+			n, _ := strconv.Atoi(p[1])
+			switch p[0] {
+			case "random":
+				nRandom = n
+			case "exh":
+				nExh = n
+			case "budget":
+				budget = n
+			case "fix":
+				fixFlag = p[1]
+			}
+		}
+	}
 
 	if strings.HasPrefix(o.Extra, "genexplore=") { // experiment: print EXPLORE lines for the model's own explorer
 		n, _ := strconv.Atoi(strings.Split(strings.TrimPrefix(o.Extra, "genexplore="), ",")[0])
@@ -1022,23 +1082,6 @@ func main() {
 		}
 	}
 
-	nRandom, nExh, budget := 500, 40, 2500
-	if o.Thorough() {
-		nRandom, nExh, budget = 6000, 1200, 120000
-	}
-	for _, kv := range strings.Split(o.Extra, ",") { // -extra random=N,exh=M,budget=B (experiments)
-		if p := strings.SplitN(kv, "=", 2); len(p) == 2 {
-			n, _ := strconv.Atoi(p[1])
-			switch p[0] {
-			case "random":
-				nRandom = n
-			case "exh":
-				nExh = n
-			case "budget":
-				budget = n
-			}
-		}
-	}
 	// exhaustive corpus: F15's graph; a store stage whose partial was left by an interrupted request (F19: merged
 	// twice); three store stages + mapper on an empty cache (F19: deadlock); the repository's test grid
 	type exh struct {
@@ -1050,7 +1093,9 @@ func main() {
 		{"p:10:5/25:25:25:40:40", 1, "-"},
 		{"p:10:0:0:0:20:20", 1, "P0.0:0-10"},
 		{"d:10:20/20:20:38:50:50", 1, "P1.0:20-30"},
-		{"p:10:30:0:0:20:20", 1, "-"}, // the store starts after the hand-off: stage index shift (F21)
+		{"p:10:30:0:0:20:20", 1, "-"},              // the store starts after the hand-off: stage index shift (F21)
+		{"d:10:0/0:0:15:20:20", 2, "F0.0:0-20"},    // F20
+		{"d:10:0/0/0:0:15:20:20", 2, "P2.0:10-20"}, // F19: invalid transition Shadowed -> PartialPresent
 	}
 	if o.Thorough() {
 		corpusExh = append(corpusExh, exh{"p:10:5/5:5:5:30:30", 1, "-"}, exh{"p:10:5/25:25:25:40:40", 2, "-"}, exh{"p:10:0/0/0:0:6:30:30", 2, "-"}, exh{"p:10:5/5:5:5:30:30", 2, "-"},
@@ -1061,8 +1106,10 @@ func main() {
 	}
 	// witnesses found by the model's explorer, replayed on the real code (cheap): three store stages + mapper on an
 	// empty cache deadlock (F19)
-	for _, l := range corpusRuns {
-		emit(l, true)
+	for _, c := range corpusRuns {
+		if cfg, ok := cfgTokens(parseGen(c.g), c.w); ok {
+			emit("RUN "+cfg+" fix="+fixFlag+" files="+c.files+" sched="+c.sched+" v=0", true)
+		}
 	}
 	for n := 0; n < nRandom; n++ {
 		r := rng.Fork()
